@@ -391,12 +391,20 @@ func (w *World) Attempt(d Desc) (*Obs, error) {
 	case "chal":
 		existing.RevisionNumber += 7
 	case "hfund":
+		// more than the host owns, on top of whatever the existing contract rolls over
 		hb, _ := w.host.w.Balance()
-		collateral = hb.Confirmed.Add(types.Siacoins(1000))
+		collateral = hb.Confirmed.Add(hb.Immature).Add(types.Siacoins(1000))
+		if d.Kind != "form" {
+			collateral = collateral.Add(existing.HostOutput.Value)
+		}
 		allowance = proto4.MinRenterAllowance(prices, collateral).Add(types.Siacoins(1))
 	case "rfund":
+		// more than the renter owns, on top of whatever the existing contract rolls over
 		rb, _ := w.renter.w.Balance()
-		allowance = rb.Confirmed.Add(rb.Unconfirmed).Add(types.Siacoins(1000))
+		allowance = rb.Confirmed.Add(rb.Unconfirmed).Add(rb.Immature).Add(types.Siacoins(1000))
+		if d.Kind != "form" {
+			allowance = allowance.Add(existing.RenterOutput.Value)
+		}
 	default:
 		return nil, fmt.Errorf("unknown pv %q", d.PV)
 	}
